@@ -11,6 +11,7 @@ use std::collections::BTreeSet;
 use std::sync::Arc;
 use sudachi::analysis::node::{LatticeNode, PathCost, ResultNode, RightId};
 use sudachi::analysis::stateful_tokenizer::StatefulTokenizer;
+use sudachi::analysis::stateless_tokenizer::DictionaryAccess;
 use sudachi::analysis::Mode;
 use sudachi::dic::dictionary::JapaneseDictionary;
 use sudachi::dic::subset::InfoSubset;
@@ -786,6 +787,137 @@ fn oracle(base: &Obs, with: &Obs, stack: &[Plug], pos_ids: &[u16], stats: &mut V
     None
 }
 
+// ------------------------------------------------------------------------------------------------
+// op `plug`: the plugins of the configured stack are called ONE BY ONE, directly (`PathRewritePlugin::rewrite`), each call
+// under catch_unwind, on a path that is either the analyser's un-rewritten path as it is or a perturbation of it that
+// does NOT tile the text; the answer is the outcome class of every run (ok / err / PANIC / HANG) and the final path.
+// Lean: C14.rewrite_stack_never_panics (as-is paths: every class must be ok - oracle `c14:plug:*`),
+// C14.never_panics_needs_tiling_counterexample (perturbed paths: the model must name the same failing run).
+
+fn build_node(o: &NodeObs) -> ResultNode {
+    use sudachi::dic::lexicon::word_infos::WordInfoData;
+    use sudachi::dic::word_id::WordId;
+    let wi = WordInfoData {
+        surface: o.surface.clone(),
+        head_word_length: o.hwl,
+        pos_id: o.pos,
+        normalized_form: o.norm.clone(),
+        dictionary_form_word_id: o.dfw,
+        dictionary_form: o.dform.clone(),
+        reading_form: o.reading.clone(),
+        a_unit_split: o.a_split.iter().map(|w| WordId::from_raw(*w)).collect(),
+        b_unit_split: o.b_split.iter().map(|w| WordId::from_raw(*w)).collect(),
+        word_structure: o.w_struct.iter().map(|w| WordId::from_raw(*w)).collect(),
+        synonym_group_ids: o.syn.clone(),
+    };
+    let inner = sudachi::analysis::Node::new(o.b as u16, o.e as u16, o.left, o.right, o.cost, WordId::from_raw(o.wid));
+    ResultNode::new(inner, o.tc, o.bb as u16, o.eb as u16, wi.into())
+}
+
+const PERTURBATIONS: &[&str] = &["as-is", "end-beyond-text", "reversed-chars", "reversed-bytes", "huge-head-word-lengths",
+    "drop-node", "swap-nodes", "duplicate-node", "begin-at-text-end"];
+
+/// a path that does not tile the text (kinds 1..): one local change of the analyser's path; all offsets stay below 65536
+fn perturb(kind: usize, nodes: &[NodeObs], ncat: usize, rng: &mut Rng) -> Vec<NodeObs> {
+    let mut p = nodes.to_vec();
+    if p.is_empty() || kind == 0 { return p; }
+    let k = rng.below(p.len());
+    match kind {
+        1 => { p[k].e = (ncat + 1 + rng.below(3)).min(65_000); }
+        2 => { p[k].b = (p[k].e + 1).min(65_000); }
+        3 => { p[k].bb = (p[k].eb + 1 + rng.below(7)).min(65_000); }
+        4 => { p[k].hwl = 40_000; if k + 1 < p.len() { p[k + 1].hwl = 30_000; } else if k > 0 { p[k - 1].hwl = 30_000; } }
+        5 => { p.remove(k); }
+        6 => { if k + 1 < p.len() { p.swap(k, k + 1); } else if k > 0 { p.swap(k - 1, k); } }
+        7 => { let n = p[k].clone(); p.insert(k, n); }
+        _ => { p[k].b = ncat.min(65_000); p[k].e = (ncat + 1).min(65_000); }
+    }
+    p
+}
+
+enum PlugMsg { Step(&'static str, Option<Vec<NodeObs>>), Done }
+
+/// outcome class of every plugin run of the stack of `full` on `nodes` (text buffer of `text` as `base` builds it), the
+/// paths after the successful runs, and the final path if every run succeeded
+fn plug_run(base: &Arc<JapaneseDictionary>, full: &Arc<JapaneseDictionary>, text: &str, nodes: &[NodeObs]) -> (Vec<String>, Vec<Vec<NodeObs>>) {
+    let (tx, rx) = std::sync::mpsc::channel();
+    let (b, f, t, ns) = (base.clone(), full.clone(), text.to_string(), nodes.to_vec());
+    std::thread::spawn(move || {
+        let mut tok = StatefulTokenizer::new(b.clone(), Mode::C);
+        tok.reset().push_str(&t);
+        if catch(|| tok.do_tokenize().is_ok()) != Ok(true) { let _ = tx.send(PlugMsg::Done); return; }
+        let mut input = InputBuffer::default();
+        let mut old: Vec<ResultNode> = Vec::new();
+        let mut subset = InfoSubset::all();
+        tok.swap_result(&mut input, &mut old, &mut subset);
+        let lattice = sudachi::analysis::lattice::Lattice::default();
+        let mut path: Vec<ResultNode> = ns.iter().map(build_node).collect();
+        for pl in f.path_rewrite_plugins() {
+            let taken = std::mem::take(&mut path);
+            match catch(|| pl.rewrite(&input, taken, &lattice)) {
+                Ok(Ok(p)) => { let _ = tx.send(PlugMsg::Step("ok", Some(p.iter().map(NodeObs::of).collect()))); path = p; }
+                Ok(Err(_)) => { let _ = tx.send(PlugMsg::Step("err", None)); break; }
+                Err(_) => { let _ = tx.send(PlugMsg::Step("PANIC", None)); break; }
+            }
+        }
+        let _ = tx.send(PlugMsg::Done);
+    });
+    let mut classes = vec![];
+    let mut paths = vec![];
+    let deadline = std::time::Instant::now() + std::time::Duration::from_millis(HANG_MS);
+    loop {
+        let left = deadline.saturating_duration_since(std::time::Instant::now());
+        match rx.recv_timeout(left) {
+            Ok(PlugMsg::Step(c, p)) => { classes.push(c.to_string()); if let Some(p) = p { paths.push(p); } }
+            Ok(PlugMsg::Done) => break,
+            Err(_) => { classes.push("HANG".to_string()); break; }
+        }
+    }
+    (classes, paths)
+}
+
+/// one `plug` case: returns true if some run did not end `ok`
+fn plug_case(run: &mut Run, idx: usize, kind: usize, base: &Obs, dics: &[Arc<JapaneseDictionary>], stack: &[Plug], pos_ids: &[u16], text: &str, textkey: &str) {
+    // hypothesis of C14.tiles_from_node_bounds on the analyser's own path: head_word_length <= byte length, node by node;
+    // and the path tiles the text (contiguous, non-empty nodes, from (0,0) to the end of the class table)
+    if let Some(n) = base.nodes.iter().find(|n| n.eb < n.bb || (n.hwl as usize) > n.eb - n.bb) {
+        run.fail_with_line(idx, "", "c14:assumption:hwl-le-bytes", &format!("text {:?} [{}]: node {}..{} (bytes {}..{}) has head_word_length {}", text, textkey, n.b, n.e, n.bb, n.eb, n.hwl));
+    }
+    let tiles = base.nodes.windows(2).all(|w| w[0].e == w[1].b && w[0].eb == w[1].bb) && base.nodes.iter().all(|n| n.b < n.e && n.e <= base.cat.len())
+        && base.nodes.first().map_or(base.cat.is_empty(), |n| n.b == 0 && n.bb == 0) && base.nodes.last().map_or(true, |n| n.e == base.cat.len());
+    if !tiles {
+        run.fail_with_line(idx, "", "c14:assumption:path-tiles-text", &format!("text {:?} [{}]: the un-rewritten path does not tile the text", text, textkey));
+    }
+    run.bump("assumption:tiles-and-hwl-checked");
+    let mut rng = Rng::for_case(run.opts.seed.wrapping_add(0xC14), idx);
+    let nodes = perturb(kind, &base.nodes, base.cat.len(), &mut rng);
+    let kind = if nodes == base.nodes { 0 } else { kind };
+    let (classes, paths) = plug_run(&dics[0], &dics[stack.len()], text, &nodes);
+    let all_ok = classes.len() == stack.len() && classes.iter().all(|c| c == "ok");
+    let mut qpaths: Vec<&Vec<NodeObs>> = vec![&nodes];
+    for p in &paths { qpaths.push(p); }
+    let mut pq = vec![];
+    for q in parser_queries(&qpaths, &base.cat) {
+        if let Ok((n, err, done, norm)) = catch(|| verif_parse(&q)) {
+            pq.push(format!("{}:{}:{}:{}:{}", hex(q.as_bytes()), n, err, done as u8, hex(norm.as_bytes())));
+        }
+    }
+    let payload = format!("trace=1 nv={} cat={} plugins={} path={} pq={}", numeric_variant(), join(base.cat.iter(), ","),
+        join(stack.iter().map(|p| plug_wire(p, pos_ids)), ";"), wire_path(&nodes), pq.join(";"));
+    let last = classes.last().cloned().unwrap_or_else(|| "ok".to_string());
+    let fin = if all_ok { format!("ok {}", wire_path(paths.last().unwrap_or(&nodes))) } else if last == "ok" { "BROKEN".to_string() } else { last.clone() };
+    let answer = format!("runs={} {}", classes.join(","), fin);
+    run.bump(&format!("plug:path:{}", PERTURBATIONS[kind]));
+    run.bump(&format!("plug:outcome:{}:{}", if kind == 0 { "tiling" } else { "not-tiling" }, if all_ok { "ok".to_string() } else { format!("{}@run{}", last, classes.len()) }));
+    run.case(idx, "plug", &payload, &answer, !all_ok || paths.last().map_or(false, |p| *p != nodes));
+    // the property on the implementation: on the analyser's own path (it tiles the text) no plugin run panics, fails or hangs
+    if kind == 0 && !all_ok {
+        let key = format!("c14:plug:{}", match last.as_str() { "PANIC" => "panic", "err" => "error", "HANG" => "hang", _ => "broken" });
+        run.bump(&format!("oracle:{}", key));
+        run.fail(idx, &key, &format!("text {:?} [{}] stack {:?}: run {} of the plugin stack, called directly on the un-rewritten path of the analyser, ends {} (classes {:?})", text, textkey, stack, classes.len(), last, classes));
+    }
+}
+
 pub fn run(run: &mut Run) {
     run.rule = "texts of numerals (valid/invalid comma and point groupings, kanji numerals and units, compound numerals that declare A/B units at the \
 head/middle/end of a run), katakana runs (dictionary words of 1-4 characters with own headword/reading/normalised form, OOV characters, NOOOVBOW \
@@ -797,6 +929,13 @@ plugins on new objects; half of the cases also in modes A and B (split paths in 
 un-rewritten path; distinct by payload".into();
     let n = run.opts.count;
     run.bump(&format!("numeric-loop-variant:{}", numeric_variant()));
+    // hypothesis SepNotFirst of C14.rewrite_stack_always_ok: the real parser rejects `,` and `.` as the first character
+    for sep in [",", "."] {
+        match catch(|| verif_parse(sep)) {
+            Ok((0, _, _, _)) => run.bump("assumption:sep-not-first:holds"),
+            other => run.fail_with_line(0, "", "c14:assumption:sep-not-first", &format!("NumericParser accepts {:?} as the first character of a number ({:?}): hypothesis SepNotFirst of C14.rewrite_stack_always_ok does not hold for the code", sep, other.map(|r| r.0))),
+        }
+    }
     let mut cached: Option<(usize, Option<usize>, Result<World, String>)> = None;
     // every non-terminating analysis leaves a spinning worker thread behind: give up early
     let mut hangs = 0usize;
@@ -1016,6 +1155,12 @@ un-rewritten path; distinct by payload".into();
                 run.fail(idx, &format!("c14:hang:{}", if cause.is_some() { "class-numeric-separator" } else { "other" }),
                     &format!("text {:?} [{}] stack {:?}: JoinNumericPlugin::rewrite_gen does not terminate within {} ms ({})", text, textkey, stack, HANG_MS, cause.unwrap_or_default()));
             }
+        }
+        // op `plug`: the same stack called plugin by plugin on the analyser's path as it is (directed cases and half of the
+        // generated ones) or on a perturbation of it that does not tile the text
+        let kind = if idx < N_DIRECTED { idx % PERTURBATIONS.len() } else if idx % 2 == 0 { 0 } else { 1 + (idx / 2) % (PERTURBATIONS.len() - 1) };
+        if hangs < MAX_HANGS {
+            plug_case(run, idx, kind, &base, &dics, &stack, &pos_ids, &text, &textkey);
         }
     }
 }
